@@ -122,6 +122,10 @@ def prop(case, rec):
         for c in odd:
             # letters whose case mapping is not one-to-one, in place of / next to ordinary letters
             cands += [c + s[1:], s[:1] + c + s[2:], s + c]
+    # two detectors touching: a website / e-mail right next to a keyboard walk, a year or digits
+    for base_ in pwgen.WEBISH[:5] + pwgen.EMAILISH[:4]:
+        for w_ in ('zaq1', '1qaz', 'qwer4', '2019', '12'):
+            cands += [base_ + w_, w_ + base_]
     cands += case.get('extra', []) + pwgen.EMAILISH + pwgen.WEBISH + ['', ' ', 'zzzzzz', '9999', '!!!!', 'Zq#1', 'abc def'] + odd
     cands = [c for c in dict.fromkeys(cands) if isinstance(c, str)]
     first = {}
